@@ -42,7 +42,7 @@ theorem obtained_submitted (L : List Bytes) (ops : List RecvOp) (hg : ∀ op ∈
       have := congrArg List.length hmap; simpa using this
     rw [hlen]
     have hsub : ids ⊆ List.range L.length := fun id hid => List.mem_range.2 (hlt id hid)
-    have := (List.subperm_of_subset hnd hsub).length_le
+    have := hnd.length_le_of_subset hsub
     simpa using this
 
 /-- C02 (no head-of-line blocking, 1): whenever the queue of complete messages is non-empty,
@@ -127,24 +127,27 @@ example : ∃ ids : List Nat, ids.Nodup ∧
 example : (run (RecvRel.new 100000 false) ops).obtained = [m2, m1, m0] ∧
     (run (RecvRel.new 100000 false) ops).dead = false := by
   decide +kernel
-/-- hypotheses of `no_head_of_line` / `complete_small_is_queued` on the state after the first op
-    (message 0 incomplete, nothing else there): message 2 is queued and then returned at once -/
-example :
-    let r := (run (RecvRel.new 100000 false) [.slice s2]).r
-    (∃ r', r.processMessage m2 2 = .ok r' ∧ SMap.find? r'.messages 2 = some m2 ∧
-      ∃ r'', r'.receive = .ok (r'', some m2)) := by
-  intro r
-  obtain ⟨r', h1, h2⟩ := complete_small_is_queued r 2 m2 (by decide +kernel) (by decide +kernel)
-    (by decide +kernel) (by decide +kernel)
-  refine ⟨r', h1, h2, ?_⟩
-  have hr' : r' = { r with mem := r.mem + m2.length, received := 2 :: r.received, messages := SMap.insert r.messages 2 m2 } := by
-    have : r.processMessage m2 2 = .ok { r with mem := r.mem + m2.length, received := 2 :: r.received, messages := SMap.insert r.messages 2 m2 } := by
-      decide +kernel
-    rw [this] at h1; cases h1; rfl
-  obtain ⟨r'', m, h⟩ := no_head_of_line r' (by rw [hr']; decide +kernel) (by rw [hr']; decide +kernel)
-    (by rw [hr']; decide +kernel)
-  have : ∃ r'', r'.receive = .ok (r'', some m2) := by rw [hr']; decide +kernel
-  exact this
+/-- the channel after slices 2 and 0 of message 0 have arrived (nothing else seen) -/
+def r1 : RecvRel :=
+  ⟨[(0, ⟨3, 2, [true, false, true], List.replicate 1200 1 ++ List.replicate 1200 0 ++ List.replicate 600 3⟩)],
+   [], 0, false, [], 3600, 100000⟩
+theorem r1_reached : (run (RecvRel.new 100000 false) [.slice s2, .slice s0]).r = r1 := by decide +kernel
+theorem r1_slicesOK : SlicesOK L r1 := by
+  rw [← r1_reached]
+  exact (unord_run L 100000 [.slice s2, .slice s0] (fun op h => genuine op (by
+    simp only [List.mem_cons, List.not_mem_nil, or_false] at h
+    rcases h with rfl | rfl <;> simp [ops]))).slices
+/-- message 0 is incomplete and nothing has been obtained, yet message 2 is queued at once … -/
+example : ∃ r', r1.processMessage m2 2 = .ok r' ∧ SMap.find? r'.messages 2 = some m2 :=
+  complete_small_is_queued r1 2 m2 (by decide) (by decide) (by decide) (by decide)
+/-- … and whatever is queued is returned by the very next `receive_message` -/
+example : ∃ r' m, ({ r1 with messages := [(2, m2)], received := [2], mem := 3601 } : RecvRel).receive = .ok (r', some m) :=
+  no_head_of_line _ (by decide) (by decide) (by decide)
+/-- slice 1 completes message 0, which is queued at once although messages 1, 2 are unseen -/
+example : ∃ r', r1.processSlice s1 = .ok r' ∧ SMap.find? r'.messages 0 = some m0 :=
+  complete_sliced_is_queued L r1 s1 m0 _ rfl r1_slicesOK rfl (by decide +kernel) (by decide +kernel)
+    (by decide +kernel) (by decide +kernel) rfl (by decide +kernel) (by decide +kernel) (by decide +kernel)
+    (by decide +kernel) (by decide +kernel) (by decide +kernel)
 end Ex
 
 end RenetVerif.C02
